@@ -42,6 +42,16 @@ func listVariants(id, verif string) []variant {
 	for _, m := range ms {
 		out = append(out, variant{"refactor", filepath.Base(filepath.Dir(m)), m})
 	}
+	// CLOAKCHECK_VARIANT_KINDS=seeded,break restricts the corpus (maintenance runs)
+	if kinds := os.Getenv("CLOAKCHECK_VARIANT_KINDS"); kinds != "" {
+		var filtered []variant
+		for _, v := range out {
+			if strings.Contains(","+kinds+",", ","+v.kind+",") {
+				filtered = append(filtered, v)
+			}
+		}
+		out = filtered
+	}
 	return out
 }
 
